@@ -44,7 +44,7 @@ contract("pysam:AlignedSegment.get_tag", {"self": "rec:AlignedSegment", "tag": "
 
 
 def _aln(rng):
-    return {"__rec__": "AlignedSegment", "query_name": rng.choice(["r1", "read_7_groupA", "x_y", "noDelim", "a_b_c", "_"]),
+    return {"__rec__": "AlignedSegment", "query_name": rng.choice(["r1", "read_7_groupA", "x_y", "noDelim", "a_b_c", "_", "m54_ccs__cellA", "x__y__z", "a/b/c", "tail__"]),
             "tags": rng.choice([{}, {"RG": "g1"}, {"CB": "cell9", "RG": "g2"}])}
 
 
